@@ -16,7 +16,10 @@ def run(c):
         "alone and nested; special and random floats; str/bytes of length 0,1,255,256,257,65535,65536; tuple/list/dict/set of "
         "size 0,1,2,3,4,5,999,1000,1001,2001 at 7 nesting positions (root, in tuple, in list, dict value, repeated in a 5-tuple, "
         "host args, list in list); >255 memoised objects; big in big; self loops, diamonds, cross-container cycles, shared and "
-        "cyclic host objects; plus seeded random graphs (depth<=5, sharing probability 1/4). Exhaustive: all 65536 BININT2 "
+        "cyclic host objects; the cycle family: each of list / dict-by-value / dict-by-key / set reaching ITSELF through every chain of "
+        "0..2 further nodes out of list, dict value, dict key, set element, tuple, host args (58 chains Starlark accepts, rooted at the "
+        "container and at a tuple holding it twice); every Encode/Decode under a watchdog in a supervised worker with a 32 MB stack "
+        "limit (endless recursion or a hang becomes a violation with the value as replay); plus seeded random graphs (depth<=5, sharing probability 1/4). Exhaustive: all 65536 BININT2 "
         "payloads, all programs of two implemented opcodes. A case is non-trivial when Go's answer is ok; distinct by driver input.")
     c.prove()
     exe = pc.harness(c)
